@@ -186,6 +186,8 @@ def _patterns(rng, P, L):
 
 def correspond(ctx, corr, model_ok):
     corr.oracle_failures.extend(busy_sender_oracle())
+    corr.oracle_failures.extend(slow_connect_oracle())
+    corr.count('transport provider slower than the keep-alive period', 3)
     corr.oracle_failures.extend(peer_probes_oracle())
     corr.count('keepalive while a long fragmented frame is being written on a slow link', 3)
     corr.count('server probing on its own without acknowledging', 2)
@@ -265,6 +267,8 @@ def search(ctx, budget_s):
 def replay(obj):
     if 'busy_case' in (obj.get('case') or {}):
         return bool(busy_sender_oracle())
+    if 'slow_case' in (obj.get('case') or {}):
+        return bool(slow_connect_oracle())
     if 'probe_case' in (obj.get('case') or {}):
         return bool(peer_probes_oracle())
     import ast
@@ -350,6 +354,59 @@ def busy_sender_oracle():
             out.append({'what': 'no KEEPALIVE written around %d of %d period ticks while a fragmented frame was being sent '
                                 '(first missing tick at %d us, transfer lasted %d us)' % (len(missing), len(ticks), missing[0], end),
                         'busy_case': [P, n, per, lenreq]})
+    return out
+
+
+# (c2) a transport provider that takes several keep-alive periods to come up: the periodic emission belongs to the CONNECTED
+# client — nothing is queued while there is no connection, the first KEEPALIVE follows the connection by one period
+def run_slow_connect(P_us, delay_us, horizon_us, lenreq=True):
+    from rsocket.rsocket_client import RSocketClient
+    loop = sim.new_loop()
+    sim.patch_clock(loop)
+    T = sim.make_transport_class()
+    t = T(lenreq=lenreq)
+    box = {}
+
+    async def provider():
+        await asyncio.sleep(delay_us / US)
+        yield t
+    try:
+        t0 = us(loop.time())
+
+        def mk():
+            box['c'] = RSocketClient(provider(), keep_alive_period=timedelta(microseconds=P_us),
+                                     max_lifetime_period=timedelta(microseconds=1000 * P_us))
+            asyncio.create_task(box['c'].connect())
+        loop.run(mk)
+        stamps = []
+        seen = 0
+        step = P_us // 10
+        now = 0
+        while now < horizon_us:
+            now += step
+            loop.run_until((t0 + now) / US)
+            while seen < len(t.sent):
+                stamps.append((us(loop.time()) - t0, sim.parse_sent(t.sent[seen])['t']))
+                seen += 1
+        return stamps
+    finally:
+        loop.finish()
+
+
+def slow_connect_oracle():
+    out = []
+    for (P, delay, horizon) in ((1000000, 3500000, 9000000), (500000, 1200000, 5000000), (200000, 100000, 2000000)):
+        st = run_slow_connect(P, delay, horizon)
+        kas = [x[0] for x in st if x[1] == 'Keepalive']
+        setup = [x[0] for x in st if x[1] == 'Setup']
+        tol = P // 10 + 1000
+        exp = [delay + k * P for k in range(1, (horizon - delay) // P + 1)]
+        ok = bool(setup) and len(st) and st[0][1] == 'Setup' and len(kas) in (len(exp), len(exp) - 1) and \
+            all(abs(a - b) <= tol for a, b in zip(kas, exp))
+        if not ok:
+            out.append({'what': 'client whose transport takes %d us to come up (period %d us): KEEPALIVEs written at %s, expected one per '
+                                'period counted from the connection: %s; first frames %s' % (delay, P, kas[:8], exp[:8], st[:3]),
+                        'slow_case': [P, delay, horizon]})
     return out
 
 
